@@ -643,6 +643,12 @@ func (u *Unit) step(s *State, in ssa.Instruction) {
 			ea := AddrElem{Term{S: "(sl_arr " + sl.S + ")", Sort: "Int"}, Term{S: fmt.Sprintf("(+ (sl_off %s) %s)", sl.S, idx.S), Sort: "Int"}, xt.Elem()}
 			s.addrs[x] = ea
 			u.sliceInvRead(s, x, ea)
+			for _, ef := range s.elemFacts {
+				if ef.slice == sl.S && !u.sliceWrittenInPlace(x.Parent(), x.X) {
+					ev := u.load(s, ea)
+					s.assume(strings.ReplaceAll(ef.tmpl, "@@elem@@", ev.S))
+				}
+			}
 		case *types.Pointer:
 			arr := xt.Elem().Underlying().(*types.Array)
 			if _, isConst := x.Index.(*ssa.Const); !isConst {
@@ -1031,4 +1037,21 @@ func (u *Unit) closureRequires(s *State, mc *ssa.MakeClosure, fn *ssa.Function) 
 		n := fmt.Sprintf("%s.closure.%s#%d", labelWithFn(c.Label, u.fnShort(mc.Parent())), u.fnShort(fn), u.ordinal(mc))
 		u.oblige(s, n, c.Props, "requires", g, mc.Pos())
 	}
+}
+
+// sliceWrittenInPlace: does the function store through an element address of a slice loaded from the same variable?
+func (u *Unit) sliceWrittenInPlace(fn *ssa.Function, sl ssa.Value) bool {
+	al := sliceVarOf(sl)
+	for _, b := range fn.Blocks {
+		for _, in := range b.Instrs {
+			if st, ok := in.(*ssa.Store); ok {
+				if ia, ok := st.Addr.(*ssa.IndexAddr); ok {
+					if ia.X == sl || (al != nil && sliceVarOf(ia.X) == al) {
+						return true
+					}
+				}
+			}
+		}
+	}
+	return false
 }
